@@ -229,6 +229,11 @@ func (m *fsmMonitor) check(preBz []byte, inst *sm.FSMInstance, ev string, args [
 				if part, in := sp.Quorum[pid]; !in || part.Status != 0 {
 					m.report("C06", "no_double_count", "contribution accepted from a participant that is not awaited", idx, ev, args)
 				}
+				// C07: "however late": a correct answer of an awaited participant is counted whatever its stamp; it never ends the
+				// batch by a deadline
+				if strings.Contains(post.State, "timeout") {
+					m.report("C07", "however_late", "a correct answer to the current batch ended it with "+post.State, idx, ev, args)
+				}
 				wantCollected := confirmed+1 == t
 				isCollected := post.State == "state_signing_partial_signs_collected"
 				if wantCollected != isCollected && !strings.Contains(post.State, "timeout") {
